@@ -313,7 +313,10 @@ def local_gp_fitting(
         pass
 
     # Re-fit gaussian Process (optimize or sample -- only optimization supported)
-    gp_priors["covariance_log_outputscale"] = ("gaussian", (sd_y, 2.0))
+    if np.isfinite(sd_y):
+        # (a single training point or flat training values have zero spread:
+        # keep the previous prior instead of one centred at log(0))
+        gp_priors["covariance_log_outputscale"] = ("gaussian", (sd_y, 2.0))
     gp.set_priors(gp_priors)
 
     old_hyp_gp = gp.get_hyperparameters(as_array=True)
